@@ -82,8 +82,8 @@ package combinator
 
 //@ -- ------------------------------------------------------------------ sequences
 //@ -- the two functions that describe a sequence, as spec-level applications of the stored function values
-//@ abstract func lookupOf(f func(int) parsley.Parser, i int) parsley.Parser
-//@ abstract func lenOf(f func(int) bool, n int) bool
+//@ pure func lookupOf(f func(int) parsley.Parser, i int) parsley.Parser = call[parsley.Parser](f, i)
+//@ pure func lenOf(f func(int) bool, n int) bool = callb(f, n)
 
 //@ functype combinator.sequence.parserLookUp(self func(int) parsley.Parser, i int) (p parsley.Parser)
 //@   requires i >= 0
@@ -153,3 +153,48 @@ package combinator
 //@   assigns  s.curtailingParsers, s.result, s.err, s.nodes, cells(s.nodes)
 //@   assigns  ite(s.result != nil && typeis[ast.NodeList](s.result), cells(s.result.(ast.NodeList), len(s.result.(ast.NodeList)), cap(s.result.(ast.NodeList))), nothing())
 //@   assigns  like parsley.Parser.Parse(nil, ctx, lrc, pos)
+
+//@ -- the run: explore from depth 0, then report the collected results / the furthest error
+//@ func (s *sequence) Parse(ctx *parsley.Context, lrc data.IntMap, pos parsley.Pos) (n parsley.Node, cp data.IntSet, err parsley.Error)
+//@   requires seqOK(s, ctx) && seqShape(s) && s.result == nil && s.err == nil && len(s.nodes) == 0
+//@   requires parsley.WfCtx(ctx) && parsley.WfCache(ctx) && parsley.InInput(ctx.Reader(), pos) && parsley.GhostLo == pos && parsley.GhostHi == eof(ctx, pos) && parsley.GhostSeqMark <= allocmark()
+//@   requires [floor;C02] pos > parsley.GhostFloorPos || (pos == parsley.GhostFloorPos && forall k int :: data.MapOf(lrc)[k] >= data.MapOf(parsley.GhostFloorLrc)[k])
+//@   ensures  parsley.WfCtx(ctx) && parsley.WfCache(ctx) && seqGhost(ctx)
+//@   ensures  [PC1;C04] n == nil && err == nil ==> parsley.GhostCurtailed
+//@   ensures  [PC2;C07] n != nil ==> parsley.NodeOK(n) && (parsley.ListArr(n) != 0 ==> parsley.GhostSpare(parsley.ListArr(n)) && parsley.ListArr(n) >= parsley.GhostSeqMark && allocatedid(parsley.ListArr(n))) && parsley.EndsWithin(n, pos, eof(ctx, pos))
+//@   ensures  [PC3e;C06] err != nil ==> pos <= err.Pos() && err.Pos() <= eof(ctx, pos) && err.Pos() <= parsley.GhostMaxFail
+//@   ensures  [cp] data.Inv(cp)
+//@   ensures  [one] n != nil ==> err == nil
+//@   assigns  s.curtailingParsers, s.result, s.err, s.nodes, cells(s.nodes)
+//@   assigns  like parsley.Parser.Parse(nil, ctx, lrc, pos)
+
+//@ -- ------------------------------------------------------- Sequence (the exported parser)
+//@ pure func shapeOf(look func(int) parsley.Parser, lc func(int) bool) bool = forall d int :: d >= 0 && lookupOf(look, d) == nil && (d == 0 || lookupOf(look, d-1) != nil) ==> lenOf(lc, d)
+//@ -- object invariant of *Sequence: established by the constructors, kept by the setters (all fields are unexported)
+//@ typeinv (s *Sequence) [fns] s.parserLookUp != nil && s.lenCheck != nil && shapeOf(s.parserLookUp, s.lenCheck) && (s.customErr == nil || !typeis[parsley.Error](s.customErr))
+
+//@ func (s *Sequence) Parse(ctx *parsley.Context, lrc data.IntMap, pos parsley.Pos) (n parsley.Node, cp data.IntSet, err parsley.Error)
+//@   requires s != nil
+//@   include  parsley.Parser.Parse
+//@   ghost_entry parsley.GhostSeqMark = allocmark()
+//@   ghost_return parsley.GhostSeqMark = old(parsley.GhostSeqMark)
+//@   ghost_return when err != nil && err.Pos() > parsley.GhostMaxFail :: parsley.GhostMaxFail = err.Pos()
+
+//@ func seqDefaultResultHandler(returnSingle bool) (f SeqResultHandlerFunc)
+//@   ensures f != nil
+//@   assigns nothing
+
+//@ functype combinator.SeqResultHandlerFunc(pos parsley.Pos, token string, nodes []parsley.Node, interp parsley.Interpreter) (r parsley.Node)
+//@   include combinator.SeqResultHandler.HandleResult
+
+//@ func (f SeqResultHandlerFunc) HandleResult(pos parsley.Pos, token string, nodes []parsley.Node, interp parsley.Interpreter) (r parsley.Node)
+//@   requires f != nil
+//@   include combinator.SeqResultHandler.HandleResult
+
+//@ -- the default handler copies the nodes: the slice it is given is the run's scratch array
+//@ closure seqDefaultResultHandler$1(pos parsley.Pos, token string, nodes []parsley.Node, interp parsley.Interpreter) (r parsley.Node)
+//@   captures (returnSingle bool)
+//@   include combinator.SeqResultHandler.HandleResult
+//@   ensures [copy;C07] len(nodes) >= 2 || (len(nodes) == 1 && !returnSingle) ==> typeis[*ast.NonTerminalNode](r) && fresh(r.(*ast.NonTerminalNode)) && fresh(ast.ChildrenOf(r.(*ast.NonTerminalNode))) && len(ast.ChildrenOf(r.(*ast.NonTerminalNode))) == len(nodes) && forall k int :: 0 <= k && k < len(nodes) ==> same(ast.ChildrenOf(r.(*ast.NonTerminalNode))[k], nodes[k])
+//@   ensures [span;C01] len(nodes) >= 1 ==> r.ReaderPos() == nodes[len(nodes)-1].ReaderPos()
+//@   ensures [empty;C01] len(nodes) == 0 ==> r.Pos() == pos && r.ReaderPos() == pos
